@@ -194,8 +194,17 @@ def sampling_factor_constructor_cases(col, rng):
         mks = {"prec": lambda: MVND(jnp.zeros(m), Kj), "prec+int rank": lambda: MVND(jnp.zeros(m), Kj, rank=r), "prec+numpy rank": lambda: MVND(jnp.zeros(m), Kj, rank=np.int64(r)),
                "prec+rank+log_pdet": lambda: MVND(jnp.zeros(m), Kj, rank=r, log_pdet=lpd), "from_penalty+int rank": lambda: MVND.from_penalty(jnp.zeros(m), jnp.float32(1.0), Kj, rank=r),
                "from_penalty_smooth+int rank": lambda: MVND.from_penalty_smooth(jnp.zeros(m), jnp.float32(1.0), Kj, rank=r, log_pdet=lpd)}
+        # penalty constructors with a variance / smoothing parameter different from 1, rank and log-pseudo-determinant derived or supplied: precision = K / var = K * smooth
+        scaled = {"from_penalty(var=2.5)": (lambda: MVND.from_penalty(jnp.zeros(m), jnp.float32(2.5), Kj), 2.5),
+                  "from_penalty(var=2.5)+rank": (lambda: MVND.from_penalty(jnp.zeros(m), jnp.float32(2.5), Kj, rank=r), 2.5),
+                  "from_penalty_smooth(smooth=0.4)": (lambda: MVND.from_penalty_smooth(jnp.zeros(m), jnp.float32(0.4), Kj), 2.5),
+                  "from_penalty_smooth(smooth=0.4)+rank": (lambda: MVND.from_penalty_smooth(jnp.zeros(m), jnp.float32(0.4), Kj, rank=r), 2.5),
+                  "from_penalty_smooth(smooth=4)+rank+log_pdet": (lambda: MVND.from_penalty_smooth(jnp.zeros(m), jnp.float32(4.0), Kj, rank=r, log_pdet=lpd), 0.25)}
         bad = None
-        for name, mk in mks.items():
+        pinv1 = pinv
+        for name, mk in list(mks.items()) + list(scaled.items()):
+            mk, sc = mk if isinstance(mk, tuple) else (mk, 1.0)
+            pinv = pinv1 * sc
             d = mk()
             S = np.asarray(d._sqrt_pcov, np.float64)
             if not np.allclose(S @ S.T, pinv, rtol=5e-3, atol=5e-4):
